@@ -147,6 +147,14 @@ func (f *Subseq) getArgs(s *slip.Scope, args slip.List, depth int) (start, end i
 		}
 	}
 	switch ta := args[0].(type) {
+	case nil:
+		// The empty list, the only subsequence is nil.
+		if end < 0 {
+			end = 0
+		}
+		if start != 0 || end != 0 {
+			slip.ErrorPanic(s, depth, "indices %d and %d are out of bounds for list of length %d", start, end, 0)
+		}
 	case slip.List:
 		if end < 0 {
 			end = len(ta)
